@@ -11,7 +11,17 @@ import (
 )
 
 // version strings of every length 0..16, with interior NULs, never ending in NUL
+var realisticVersions = []string{"1.0.0", "v1.2.3", "V1.2.3", "v0.1.6-rc1+b5", "0.1.6-rc1+b5", "1.2", "v1", "v", "01.2.3",
+	"1.2.3 ", " 1.2.3", "1.2.3-", "v1.2.3+meta", "latest", "1.0.0-alpha.1", "=1.2.3", ">=1.0.0", "1.2.3\n", "\xff\xfe", "v10.20.30"}
+
 func (g *G) version(l int) []byte {
+	if g.intn(4) == 0 {
+		for k := 0; k < 30; k++ {
+			if v := realisticVersions[g.intn(len(realisticVersions))]; len(v) == l {
+				return []byte(v)
+			}
+		}
+	}
 	v := make([]byte, l)
 	for i := range v {
 		switch g.intn(4) {
@@ -71,6 +81,29 @@ func (g *G) bigFrames() {
 	st3 := streamOf(all)
 	g.emit("pbs %s %d inj 0 %s", framesTok(all), len(st3)-500, compactBytes(st3[:len(st3)-500]))
 	g.emit("pbs %s -1 eof 3 %s", f3.tok(), compactBytes(streamOf([]genFrame{f3})))
+	// every realistic version string, with and without a following frame
+	for _, v := range realisticVersions {
+		f := genFrame{hasVer: true, ver: []byte(v), body: g.bytes(3, 3)}
+		g.emit("pbs %s -1 eof %d %s", framesTok([]genFrame{f, small}), g.intn(6), compactBytes(streamOf([]genFrame{f, small})))
+	}
+	if !g.thorough() {
+		return
+	}
+	// bodies beyond 2 MiB and 4 MiB: followed by another frame, read in medium-sized chunks; cut inside the body
+	for _, n := range []int{2<<20 + 11, 4<<20 + 70000, 5 << 20} {
+		big := mk(n, byte(0x30+n%7))
+		two := []genFrame{big, small, mk(1<<20+3, 0x77)}
+		st := streamOf(two)
+		for _, chunk := range []int{0, 4, 5, 6} {
+			g.emit("pbs %s -1 eof %d %s", framesTok(two), chunk, compactBytes(st))
+		}
+		for _, cut := range []int{32 + n/2, 32 + n - 1, 32 + 4<<20, 32 + 4<<20 + 1, 32 + n - 70000} {
+			if cut > 32 && cut < 32+n {
+				g.emit("pbs %s %d eof %d %s", framesTok(two), cut, []int{0, 4, 5}[g.intn(3)], compactBytes(st[:cut]))
+				g.emit("pbs %s %d inj 5 %s", framesTok(two), cut, compactBytes(st[:cut]))
+			}
+		}
+	}
 }
 
 // stream marshals the frames with the real Marshal (raw messages: encoding = body)
@@ -260,7 +293,8 @@ func init() {
 		names := []string{"nil", "uint", "uintptr", "struct-uint", "named-u", "int", "bool", "string", "empty-str", "nil-slice",
 			"empty-slice", "slice3", "array3", "nil-ptr", "ptr", "nil-map", "map", "iface-field", "nested", "complex",
 			"big-structs-4095", "big-structs-4096", "big-structs-9000", "big-array", "big-strings", "big-bytes",
-			"alias-slice", "alias-fields", "alias-map"}
+			"alias-slice", "alias-fields", "alias-map", "embedded", "embedded-deep", "embedded-slice",
+			"same-address-1", "same-address-2", "same-address-3"}
 		for _, n := range names {
 			g.emit("sizeofnamed %s", n)
 		}
